@@ -42,6 +42,9 @@ def run(c, facts, tier):
     b = peg.Builder(facts)
     g = peg.Grammar(b)
     an = Anchors(facts, b)
+    from .. import glue
+
+    glue.obligations(c, facts, b, "C18")
     tokfn = an.role("token")
     scope = b.scope(facts.fn(tokfn).module)
     c.trusted = ["winnow 0.6.7: .context() pushes on the error while it propagates outward; cut_err stops alternation; and_then restores the position to the start of the word on inner failure", "E1 extractor"]
